@@ -279,6 +279,31 @@ def annotation_tags_case(_=None):
         for arg, tags in want.items():
           if set(fdl.get_tags(cp, arg)) != tags:
             bad(f'{cls.__name__}({fn.__name__}): annotation tags of {arg!r} did not survive {opname}', name)
+  # an annotated parameter that is also given a tagged value / more tags: the tag sets add up
+  for cls in (fdl.Config, fdl.Partial):
+    for how, mk in [
+        ('Tag.new as constructor argument', lambda: cls(pool.annotated, w=pool.TagB.new(5))),
+        ('TaggedValue with two tags as constructor argument',
+         lambda: cls(pool.AnnotatedInit, w=fdl.TaggedValue([pool.TagB, pool.TagA2], default=5))),
+        ('positional Tag.new', lambda: cls(pool.annotated, pool.TagB.new(5))),
+        ('Tag.new assigned later', lambda: (lambda c: (setattr(c, 'w', pool.TagB.new(5)), c)[1])(cls(pool.annotated))),
+        ('add_tag later', lambda: (lambda c: (fdl.add_tag(c, 'w', pool.TagB), c)[1])(cls(pool.annotated))),
+    ]:
+      n += 1
+      try:
+        cfg = mk()
+      except Exception as e:   # pylint: disable=broad-except
+        bad(f'{cls.__name__}, {how}: raised {type(e).__name__}: {str(e)[:80]}', how)
+        continue
+      got = set(fdl.get_tags(cfg, 'w'))
+      if not {pool.TagA, pool.TagB} <= got:
+        bad(f'{cls.__name__}, {how}: tags of the annotated parameter are {sorted(t.__name__ for t in got)}; the '
+            f'annotation tag TagA and the explicitly attached TagB must both be there', how)
+      c2 = copy.deepcopy(cfg)
+      marker = ['V']
+      fdl.set_tagged(c2, tag=pool.TagB, value=marker)
+      if c2.__arguments__.get('w', c2.__arguments__.get(0)) is not marker:
+        bad(f'{cls.__name__}, {how}: set_tagged(TagB) did not reach the argument', how)
   return n, n, viols, [dict(scenario='tags attached by annotation')]
 
 
